@@ -54,7 +54,19 @@ Definition corr_lev (c : lcase) : bool :=
 
 Definition holds_lev (c : lcase) : bool :=
   match l_lev c with
-  | ORaise _ => true                  (* levinson_durbin's own errors belong to C10 *)
+  | ORaise _ =>
+      (* parcor(levinson_durbin(r)) must yield the coefficients of the recursion whenever the recursion
+         exists: an exception is acceptable only when Durbin's recursion itself breaks down (some
+         E_(m-1) = 0 before the end; that error belongs to C10) or for the empty lag list, about which
+         the text says nothing.  A last coefficient of magnitude 1 is NOT a breakdown: the filter (error
+         0) must be returned and ParCorError may only come from parcor's step-down. *)
+      match l_r c with
+      | [] => true
+      | _ => match durbin (l_r c) (match l_order c with Some p => p | None => (List.length (l_r c) - 1)%nat end) with
+             | Some _ => false
+             | None => true
+             end
+      end
   | OOk (A, e) =>
       let p := match l_order c with Some p => p | None => (List.length (l_r c) - 1)%nat end in
       match durbin (l_r c) p, l_pc c with
